@@ -752,6 +752,12 @@ def cases(tier):
           IPPOAction(True, False), IPPOAction(True, True), IPPOAction(False, False), IPPOAction(False, True, A=1, E=2),
           IPPOEnvDefined(True), IPPOEnvDefined(False, A=2, E=1),
           MAAction("MADDPG", True, True, masked=True, env_defined=True, B=1, nA=2), MAAction("MADDPG", False, True, env_defined=True, B=1), MAAction("MATD3", True, False, env_defined=True, B=1)]
+    # what the policy-gradient cases above assume of the policy head is decided on the REAL head (C16's harness): a squashed head
+    # returns tanh(u) scaled into the box - also after recreate_network / clone / a latent mutation -, a masked head never returns
+    # a masked index, and IPPO hands every (agent, env) row its own mask
+    from .c16_dist import DistCase, IPPOMaskRouting
+    cs += [DistCase("box2", squash=True), DistCase("box2", squash=True, history="recreate"), DistCase("box2", squash=True, history="clone"),
+           DistCase("discrete3", masked=True), DistCase("multidiscrete23", masked=True), DistCase("multibinary3"), IPPOMaskRouting(2, 2), IPPOMaskRouting(2, 2, arrays=True)]
     if tier == "thorough":
         cs += [DQNAction(1, 4, True, False), DQNAction(1, 4, True, True), DQNAction(3, 2, True, True), MaskedArgmaxAction("CQN", 2, 4, True), MaskedArgmaxAction("RainbowDQN", 2, 4, True),
                ClipAction("DDPG", 2, False), MAAction("MADDPG", True, False, masked=True, B=2), MAAction("MATD3", False, False, B=2),
